@@ -118,7 +118,8 @@ pub fn gen_random(seed: u64, idx: u64) -> Plan {
             // for 10 to 40 s while the connection is otherwise silent
             let long_one = if r.chance(1, 3) { Some(r.usize_in(0, n - 1)) } else { None };
             for j in 0..n {
-                let mut w = gen_work_req(&mut r, nonce, false);
+                let pan = long_one != Some(j) && r.chance(1, 6);
+                let mut w = gen_work_req(&mut r, nonce, pan);
                 w.chunked = None;
                 w.resp_bytes = w.resp_bytes.min(5000);
                 if long_one == Some(j) {
@@ -646,11 +647,33 @@ pub fn check_c16(
                         }
                         continue;
                     }
+                    if planned.contains(&rq.nonce) {
+                        // its own request is the one a panic may fail
+                        continue;
+                    }
+                    // did the handler of a sibling stream panic?
+                    let sibling_panicked = cp.reqs.iter().any(|o| {
+                        o.nonce != rq.nonce
+                            && planned.contains(&o.nonce)
+                            && hist.get(&o.nonce).map(|h| h.terminal.iter().any(|t| t.2 == Ev::HandlerPanicked)).unwrap_or(false)
+                    });
                     match &obs.by_req[k] {
                         Some(r) => {
+                            if sibling_panicked {
+                                probe("h2_sibling_of_panicked_stream_answered");
+                            }
                             if let Err(e) = work_response_ok(rq, &r.resp) {
                                 v.push(Violation { rule: "c16.bystander".into(), detail: format!("conn {ci} h2 stream {k}: {e}") });
                             }
+                        }
+                        None if sibling_panicked => {
+                            v.push(Violation {
+                                rule: "c16.panic_isolated".into(),
+                                detail: format!(
+                                    "conn {ci} h2 stream {k} (nonce {}): the handler of another stream of this connection panicked and this request, whose client stayed, got no response: {:?}",
+                                    rq.nonce, obs.h2_err[k]
+                                ),
+                            });
                         }
                         None => v.push(Violation {
                             rule: "c16.bystander".into(),
